@@ -337,7 +337,7 @@ PLANS['C19'] = dict(run=_c19_run, replay=s_cmake.replay, replay_kind='cmake',
                     rule="real `cmake -P` runs of cminx_gen_rst with CMINX_EXECUTABLE bound to (a) an argv recorder — compared with the Lean genArgv, "
                          "(b) the working-tree CMinx — output tree byte-compared with a direct command-line run, (c) a failing child; inputs: lone "
                          "files, flat and nested directories, missing paths, syntax-error files; extra lists of 0-3 option groups (-p, -e, -s, "
-                         "--prefix); histories: 3-6 calls from one build directory (one configure each, or all in one CMake run) with the settings file, "
+                         "--prefix); histories: 3-7 calls from one build directory (one configure each, or all in one CMake run) with the settings file, "
                          "the user file, the input's content or membership, the output or the call's arguments changed in between, each step compared "
                          "with the same history on the command line; non-trivial = every run",
                     assumptions=["CMake's evaluation of the function body, list expansion and execute_process(COMMAND_ERROR_IS_FATAL ANY) are trusted; "
